@@ -442,6 +442,7 @@ void prec_from_record(const struct pfx_record *r, struct prec *p);
 void record_from_prec(const struct prec *p, struct pfx_record *r, const struct rtr_socket *src);
 
 void sim_init(struct sim *s, struct universe *u, const struct simcfg *cfg, uint64_t seed);
+int sim_tcp_new_socket(void *data); /* tr_tcp_config.new_socket hook of the TCP variant (SIM_TCP_WRAPS builds) */
 extern void (*SIM_ON_ESTABLISHED)(struct sim *s); /* engine hook: the socket has just been reported ESTABLISHED */
 void sim_attach(struct sim *s, struct rtr_socket *sock, struct pfx_table *pfxt, struct spki_table *spkit);
 void sim_free(struct sim *s);
